@@ -469,12 +469,21 @@ class Executor:
     def set_binop(self, op, a, b, s):
         h = s.heap
         k = z3.Const(smt.fresh_name("bk"), V)
-        ina, inb = h.c["sh"][a.t][k], h.c["sh"][b.t][k]
+        from . import engine as _engine
+        norm = _engine.VIEW_NORMALIZER[0] or (lambda t, st: t)
+        arr_a, arr_b = norm(h.c["sh"][a.t], s), norm(h.c["sh"][b.t], s)   # the operands' membership arrays, read through the heap
+        ina, inb = arr_a[k], arr_b[k]
         body = z3.And(ina, inb) if isinstance(op, ast.BitAnd) else z3.Or(ina, inb) if isinstance(op, ast.BitOr) else z3.And(ina, z3.Not(inb))
         r = alloc_set(s, a.ty[1])
         n = smt.fresh_int("sn")
-        s.heap = s.heap.with_comp("sh", z3.Store(s.heap.c["sh"], r.t, z3.Lambda([k], body))).with_comp("sn", z3.Store(s.heap.c["sn"], r.t, n))
-        s.assume(*smt.heap_wellformed_ref(s.heap, r.t, "s"))
+        # result membership: a fresh array defined pointwise (both directions instantiate by E-matching on membership terms)
+        m = z3.Const(smt.fresh_name("setop"), z3.ArraySort(V, z3.BoolSort()))
+        facts = [smt.forall([k], m[k] == body, patterns=[m[k]])]
+        for arr in (arr_a, arr_b):
+            if z3.is_const(arr) or z3.is_select(arr):
+                facts.append(smt.forall([k], z3.Implies(arr[k], m[k] == body), patterns=[arr[k]]))
+        s.heap = s.heap.with_comp("sh", z3.Store(s.heap.c["sh"], r.t, m)).with_comp("sn", z3.Store(s.heap.c["sn"], r.t, n))
+        s.assume(*facts, *smt.heap_wellformed_ref(s.heap, r.t, "s"))
         return r
 
     def seq_concat(self, a, b, s):
